@@ -239,6 +239,171 @@ def scenario(sc, tmproot, chooser_factory):
     return impl, obs_rec
 
 
+def scenario_cli(sc, tmproot, chooser_factory):
+    """The command-line main loop (cmdline.py:391-439) under the controller: main() runs as the managed thread 'main'; its
+    1 s poll is a scheduling point at which KeyboardInterrupt can be delivered; threading.enumerate() counts managed threads.
+    sc: dict(pat, B, sr, sw, ch, p, opts=[...extra argv], interrupt (bool), seed).  Returns (impl, obs_record)."""
+    import types
+    from auditok import workers as W, util, io as aio, core
+    import auditok.cmdline as C
+    import auditok.cmdline_util as CU
+    from . import sched
+    from .split import synth
+    sched.install(W)
+    S = sched.new_run(None)
+    rng = random.Random(sc["seed"])
+    S.chooser = chooser_factory(rng, sc)
+    pat, B, sr, sw, ch = sc["pat"], sc["B"], sc["sr"], sc["sw"], sc["ch"]
+    mn, mx, sl, drop, strict = sc["p"]
+    data, nsamp = synth(pat, B, sc.get("tail", B), sw, ch, amp=(3000, 0) if sw > 1 else (100, 0))
+    bps = sw * ch
+    tmp = tempfile.mkdtemp(dir=tmproot)
+    path = os.path.join(tmp, "in.wav")
+    with wave.open(path, "wb") as wf:
+        wf.setframerate(sr)
+        wf.setsampwidth(sw)
+        wf.setnchannels(ch)
+        wf.writeframes(data)
+    blocks = []
+    verdicts = []
+    created = []
+    orig_read = aio.BufferAudioSource.read
+    orig_init = W.Worker.__init__
+    orig_val = core.AudioEnergyValidator
+    orig_time, orig_threading = C.time, C.threading
+
+    def logging_read(self_, size):
+        if sched.SCHED is not S or S.me() is None:
+            return orig_read(self_, size)
+        S.point("src_read")
+        d = orig_read(self_, size)
+        if d is not None:
+            blocks.append(d)
+        S.note(pt="src_read", got=(len(d) // bps if d else 0))
+        return d
+
+    def naming_init(self_, *a, **k):
+        orig_init(self_, *a, **k)
+        if isinstance(self_, W.TokenizerWorker):
+            name = "tok"
+        elif isinstance(self_, W.StreamSaverWorker):
+            name = "saver"
+        else:
+            name = "o%d" % (1 + sum(1 for x in created if x[0].startswith("o")))
+        self_._ctl_name = name
+        S.qnames[id(self_._inbox)] = name
+        created.append((name, self_))
+
+    class LoggingValidator(orig_val):
+        def is_valid(self_, d):
+            v = bool(orig_val.is_valid(self_, d))
+            verdicts.append(v)
+            S.note(pt="V", v=v)
+            return v
+    shim_t = types.ModuleType("time_shim")
+
+    def ctl_sleep(sec):
+        d = S.point("sleep", sc.get("interrupt", False))
+        S.note(pt="sleep", dec=d)
+        if d == "interrupt":
+            raise KeyboardInterrupt
+    shim_t.sleep = ctl_sleep
+    shim_th = types.ModuleType("threading_shim")
+    shim_th.enumerate = lambda: ["main"] + [n for n in S.alive if n != "main"]
+    printed = []
+    w = B / sr
+    out_stream = os.path.join(tmp, "stream_out.wav")
+    argv = ["-n", repr((mn - 0.5) * w), "-m", repr((mx + 0.5) * w), "-s", repr((sl + 0.5) * w), "-a", repr(w), "-e", "30"]
+    if drop:
+        argv.append("-d")
+    if strict:
+        argv.append("-R")
+    if sc["saver"]:
+        argv += ["-O", out_stream]
+    if sc.get("regsave"):
+        argv += ["-o", os.path.join(tmp, "det_{id}.wav")]
+    argv.append(path)
+    ret = {}
+    try:
+        aio.BufferAudioSource.read = logging_read
+        W.Worker.__init__ = naming_init
+        core.AudioEnergyValidator = LoggingValidator
+        C.time, C.threading = shim_t, shim_th
+        W.print = lambda text: printed.append(text)
+
+        def main():
+            ret["code"] = C.main(argv)
+        status = sched.run_main(main, max_steps=sc.get("max_steps", 6000))
+    finally:
+        aio.BufferAudioSource.read = orig_read
+        W.Worker.__init__ = orig_init
+        core.AudioEnergyValidator = orig_val
+        C.time, C.threading = orig_time, orig_threading
+    tw = next((o for n, o in created if n == "tok"), None)
+    dets = []
+    detregs = {}
+    if tw is not None:
+        for d in tw.detections:
+            first = round(d.start * sr)
+            n = round((d.end - d.start) * sr)
+            dets.append([d.id, first // B, first // B + -(-n // B) - 1] if first % B == 0 and n >= 1 else [d.id, -1, -1])
+            detregs[d.id] = data[first * bps:(first + n) * bps]
+    ids = []
+    printed_ok = True
+    for line in printed:
+        m = re.match(r"^(\d+) (\S+) (\S+)$", line)
+        if not m:
+            printed_ok = False
+            continue
+        ids.append(int(m.group(1)))
+    processed = [ids]
+    regfiles_ok = True
+    if sc.get("regsave"):
+        names = sorted(f for f in os.listdir(tmp) if f.startswith("det_"))
+        got_ids = []
+        for f in names:
+            k = int(re.match(r"det_(\d+)", f).group(1))
+            got_ids.append(k)
+            try:
+                with wave.open(os.path.join(tmp, f)) as wf:
+                    if wf.readframes(-1) != detregs.get(k):
+                        regfiles_ok = False
+            except Exception:
+                regfiles_ok = False
+        processed.append(sorted(got_ids))
+    file_ids = []
+    fvalid = True
+    if sc["saver"]:
+        try:
+            with wave.open(out_stream) as wf:
+                fvalid = (wf.getframerate(), wf.getsampwidth(), wf.getnchannels()) == (sr, sw, ch)
+                fb = wf.readframes(-1)
+            off = 0
+            for k, blk in enumerate(blocks):
+                if off >= len(fb):
+                    break
+                if fb[off:off + len(blk)] == blk:
+                    file_ids.append(k)
+                    off += len(blk)
+                else:
+                    file_ids.append(-1)
+                    break
+            if off < len(fb) and (not file_ids or file_ids[-1] != -1):
+                file_ids.append(-1)
+        except Exception:
+            fvalid = False
+    stream = list(verdicts) + [False] * (len(blocks) - len(verdicts))
+    interrupted = any(e.get("pt") == "sleep" and e.get("dec") == "interrupt" for e in S.events)
+    p = {"min": mn, "max": mx, "sil": sl, "imin": 0, "isil": 0, "strict": bool(strict), "drop": bool(drop),
+         "nobs": len(processed), "saver": bool(sc["saver"]), "cache": 1, "stop": True}
+    obs_rec = {"p": p, "stream": stream, "judged": len(verdicts), "dets": dets, "processed": processed, "status": status,
+               "alive": len(S.alive), "stopped": bool(interrupted), "file": file_ids, "fvalid": bool(fvalid), "joined_ok": True,
+               "regfiles_ok": regfiles_ok, "printed_ok": printed_ok and ret.get("code") == 0}
+    impl = {"p": p, "ev": S.events, "kinds": ["cli"], "argv": argv[:-1]}
+    shutil.rmtree(tmp, ignore_errors=True)
+    return impl, obs_rec
+
+
 def Fraction_round(x, sr):
     from fractions import Fraction
     p = Fraction(str(x)) * sr
@@ -283,6 +448,26 @@ def chooser_policy(rng, sc):
     return choose
 
 
+def chooser_cli(rng, sc):
+    """Random schedule for the command-line loop: the poll of main() is mostly left waiting; with sc['interrupt'] a
+    KeyboardInterrupt is delivered at the sc['interrupt_at']-th poll."""
+    polls = [0]
+
+    def choose(en, s):
+        mains = [e for e in en if e[0] == "main"]
+        others = [e for e in en if e[0] != "main"]
+        if "main" in s.parked and s.parked["main"][0] == "sleep":
+            if sc.get("interrupt") and polls[0] >= sc.get("interrupt_at", 0):
+                return ("main", "interrupt")
+            if others and rng.random() < .85:
+                nt = [e for e in others if e[1] != "timeout"]
+                return rng.choice(nt or others) if rng.random() < .8 else rng.choice(others)
+            polls[0] += 1
+            return ("main", "go")
+        return rng.choice(en)
+    return choose
+
+
 def chooser_follow(schedule):
     """Follow a TLC behaviour: schedule = list of (thread, decision-or-None)."""
     def factory(rng, sc):
@@ -322,7 +507,10 @@ def _run_batch(args):
     for sc in scs:
         fac = chooser_follow(sc["schedule"]) if mode == "follow" else chooser_policy
         try:
-            impl, obs = scenario(sc, tmproot, fac)
+            if sc.get("cli"):
+                impl, obs = scenario_cli(sc, tmproot, chooser_cli)
+            else:
+                impl, obs = scenario(sc, tmproot, fac)
         except Exception as exc:  # noqa
             raise MachineryError(f"scenario crashed: {type(exc).__name__}: {exc} sc={ {k: v for k, v in sc.items() if k != 'schedule'} }")
         out.append((sc, impl, obs))
@@ -483,6 +671,14 @@ def check(prop, tier, replay=None):
                 sc = dict(base)
                 sc["stop_after"] = k
                 scs.append(sc)
+    if prop in ("C14", "C12"):
+        # the command-line main loop itself (cmdline.py:391-439): natural end for C12, Ctrl-C at the k-th poll for C14
+        for k in range(60 if tier == "quick" else 600):
+            sc = rand_scenario(rng, tier, prop)
+            sc.update(cli=True, interrupt=(prop == "C14"), interrupt_at=rng.choice([0, 0, 1, 2, rng.randint(0, 12)]), regsave=rng.random() < .4,
+                      obs=["print"], stop_after=None, sr=rng.choice([10, 100]))
+            sc["sw"] = 2 if sc["sw"] == 1 else sc["sw"]
+            scs.append(sc)
     runs = run_scenarios(scs, tmproot)
     report_runs(V, prop, runs, wd, "T")
     V.leg("T", runs=len(runs), events=sum(len(r[1]["ev"]) for r in runs), statuses=count_status(runs), wall_s=round(time.time() - t0, 2))
@@ -512,7 +708,7 @@ def report_runs(V, prop, runs, wd, leg):
     rows, st = judge("WorkersObs", OBS_CFG, obs, wd, "wo_" + leg, weight=lambda x: len(x["stream"]) + 1)
     V.cov["states"] += st
     # step conformance only for runs whose observers are plain workers (the joiner's drain phase is a different thread shape)
-    idx = [i for i, r in enumerate(runs) if "joiner" not in r[1]["kinds"] and r[2]["status"] == "done"]
+    idx = [i for i, r in enumerate(runs) if "joiner" not in r[1]["kinds"] and "cli" not in r[1]["kinds"] and r[2]["status"] == "done"]
     irows, ist = judge("WorkersTrace", IMPL_CFG, [runs[i][1] for i in idx], wd, "wt_" + leg, strip=lambda x: {"p": x["p"], "ev": x["ev"]})
     V.cov["states"] += ist
     accepted = {i: (r[2] == r[3]) for i, r in zip(idx, irows)}
